@@ -96,6 +96,12 @@ func Resume(
 				// file most-likely contains the index and we cannot know where it starts, therefore
 				// can't resume.
 				return errors.New("corrupt CARv2 header; cannot resume from file")
+			} else if headerInFile.IndexOffset < headerInFile.DataOffset+headerInFile.DataSize {
+				// Finalize always writes an index after the data payload and records its offset in
+				// the same write as the data size. An index offset that points before the end of
+				// the payload (e.g. zero) means that write was torn, so the data size cannot be
+				// trusted either: truncating to it could destroy blocks.
+				return errors.New("corrupt CARv2 header; cannot resume from file")
 			}
 		}
 
